@@ -35,6 +35,8 @@ func childMain(role string, args []string) int {
 		return childBundle(args)
 	case "atomic":
 		return childAtomic(args)
+	case "locker":
+		return childLocker(args)
 	}
 	fmt.Fprintf(os.Stderr, "unknown child role %q\n", role)
 	return 64
@@ -46,6 +48,8 @@ func run(c *vlib.Ctx) error {
 		return runBundle(c)
 	case "C27":
 		return runAtomic(c)
+	case "C28":
+		return runLock(c)
 	}
 	return fmt.Errorf("driver process does not serve property %s", c.Prop)
 }
@@ -56,6 +60,8 @@ func replay(c *vlib.Ctx) error {
 		return replayBundle(c)
 	case "C27":
 		return replayAtomic(c)
+	case "C28":
+		return replayLock(c)
 	}
 	return fmt.Errorf("driver process does not serve property %s", c.Prop)
 }
